@@ -1202,7 +1202,7 @@ func genC17(g *G, sc *Scenario, tier string, seed uint64) {
 	}
 	onError := []any{map[string]any{"errorHandler": "log", "maxItems": maxItems}}
 	spec := map[string]any{}
-	withRerun := round%4 >= 2
+	withRerun := round%4 >= 2 || g.P(0.25) // (the quick tier walks rounds 0 and 1 only)
 	if withRerun {
 		onError = append(onError, map[string]any{"errorHandler": "reRun", "maxRetries": g.Range(0, 3), "retryDelay": g.PickInt([]int{0, 1, 5, 60})})
 		if g.P(0.5) {
@@ -1234,9 +1234,16 @@ func genC17(g *G, sc *Scenario, tier string, seed uint64) {
 		cfg["batchSize"] = batch
 	}
 	spec["rejectIds"] = rej
+	killed := false
+	if withRerun && !big && n >= 2 && g.P(0.25) {
+		// an operator kills the job during its first run; nothing is rejected: a killed run is not run again
+		killed = true
+		spec = map[string]any{"killAtSink": g.Range(1, n-1)}
+		cfg["batchSize"] = 1
+	}
 	sc.Ops = append(sc.Ops, Op{K: "batch", DS: "srcA", Ents: ents})
 	sc.Ops = append(sc.Ops, Op{K: "tick", S: "job1", M: spec})
-	if g.P(0.3) {
+	if !killed && g.P(0.3) {
 		// a later tick with nothing rejected: must succeed and must not re-run
 		sc.Ops = append(sc.Ops, Op{K: "batch", DS: "srcA", Ents: []Ent{{"id": MkE + "later", "props": map[string]any{}, "refs": map[string]any{}}}})
 		sc.Ops = append(sc.Ops, Op{K: "tick", S: "job1", M: map[string]any{}})
